@@ -81,6 +81,42 @@ Lemma fast_agrees ns m nv (steps : list cstep) (st st' : fstate) (A : mat) (b q 
 Proof. intros H0 H. destruct (run_fast_ok (ns * m) m steps st st' H0 H) as [Hg Hm].
   split; [exact Hg|]. split; [now apply fast_value_eq|]. intros al. now apply fast_grad_eq. Qed.
 
+(* --- option identities: they are carried by the state but never consulted *)
+Notation ostate := (@ostate R). Notation ostep := (@ostep R). Notation rostate := (@rostate R). Notation rostep := (@rostep R).
+Lemma run_fast_o_erase m (steps : list ostep) : forall os : ostate,
+  match run_fast_o m steps os, run_fast m (map erase steps) (o_st os) with
+  | COk os', COk st' => o_st os' = st'
+  | CErr, CErr => True
+  | _, _ => False
+  end.
+Proof. induction steps as [|s t IH]; intros os; cbn [run_fast_o run_fast map]; [reflexivity|].
+  unfold step_fast_o. destruct (step_fast m (erase s) (o_st os)) as [st1|]; [|exact I].
+  exact (IH {| o_st := st1; o_opt := held_after s (o_opt os) |}). Qed.
+Lemma run_generic_o_erase (steps : list ostep) : forall cur : wts * option nat,
+  match run_generic_o steps cur, run_generic (map erase steps) (fst cur) with
+  | COk c', COk w => fst c' = w
+  | CErr, CErr => True
+  | _, _ => False
+  end.
+Proof. induction steps as [|s t IH]; intros cur; cbn [run_generic_o run_generic map]; [reflexivity|].
+  unfold step_generic_o. destruct (step_generic (erase s) (fst cur)) as [w|]; [|exact I].
+  exact (IH (w, held_after s (snd cur))). Qed.
+(* re-configuration with the SAME option object (or any other) and new data: the weights are those the option's value
+   denotes for the CURRENT data, the cache is their extension, whatever the object held (weights, cache, option) *)
+Lemma reconfigure_same_option m oid md (c : wts) k (os : ostate) :
+  match step_fast_o m (OConfig oid md c k) os, mode_spec md c k with
+  | COk os', COk w => f_w (o_st os') = w /\ o_opt os' = Some oid /\
+                      f_ext (o_st os') = match w with Some w' => Some (ext_of m w') | None => None end
+  | CErr, CErr => True
+  | _, _ => False
+  end.
+Proof. unfold step_fast_o. cbn [erase step_fast]. unfold config_fast. rewrite modes_effective.
+  destruct (mode_spec md c k) as [w|]; [|exact I]. cbn. repeat split. Qed.
+Lemma run_re_fast_o_erase m (steps : list rostep) : forall os : rostate,
+  ro_st (run_re_fast_o m steps os) = run_re_fast m (map rerase steps) (ro_st os).
+Proof. induction steps as [|s t IH]; intros os; cbn [run_re_fast_o run_re_fast map]; [reflexivity|].
+  rewrite IH. reflexivity. Qed.
+
 (* --- relative entropy *)
 Lemma config_re_is_spec cm (custom cur : option vec) : config_re cm custom cur = config_re_spec cm custom.
 Proof. reflexivity. Qed.
